@@ -26,12 +26,12 @@ def harnesses(tier, findings):
         return [blk(1, "refusal", 2, 3, timeout=2400), blk(2, "release", 2, 4, timeout=2400), blk(1, "refusal", 1, 5, timeout=2400), blk(2, "release", 1, 6, timeout=2400)]
     if tier == "quick":
         return [blk(1, "refusal", 1, 3), blk(2, "release", 1, 4), blk(3, "drain", 2, 0, isr=False, timeout=900, solver="cadical")] + audit
-    return [blk(1, "refusal", 2, 4, timeout=3000), blk(2, "release", 2, 6, timeout=3500), blk(3, "drain", 3, 0, isr=False, solver="cadical")] + audit
+    return [blk(1, "refusal", 2, 3, timeout=3500), blk(2, "release", 2, 4, timeout=3500), blk(2, "release", 1, 6, timeout=3000), blk(3, "drain", 3, 0, isr=False, solver="cadical")] + audit
 
 META = dict(
     level="model_checking",
     bounds=dict(quick="1 reader, <=3/4 environment steps, arbitrary 64-bit INV pre-state, preemption before every shared access of channel_write_map (ISR)",
-                thorough="2 readers, <=4/6 environment steps"),
+                thorough="2 readers with <=3/4 environment steps (27-38 min each on a loaded machine; 4/6 steps did not finish in 50 min), 1 reader with 6"),
     outside="more than 2 readers in the blocking harnesses; OS scheduler fairness (a runnable thread eventually runs); environment steps that block on the channel lock while the writer holds it are started after the release instead; more than ENV_MAX environment steps",
     assumptions=["lock/condition-variable model of env/plat_seq.c + harness sleep model: a broadcast wakes a sleeper only if it is already asleep, spurious wake-ups not needed for liveness",
                  "condition_variable_notify_all issued inside an environment step is delivered as a separate later step"],
